@@ -709,6 +709,12 @@ func (l *Lexer) shiftXML(rawTag Hash) []byte {
 				l.err = parse.NewErrorLexer(l.r, "unexpected NULL character")
 			}
 			return l.r.Shift()
+		} else if 0 < len(l.tmplBegin) && l.at(l.tmplBegin...) {
+			// a template region in the end tag is part of the token like anywhere else
+			l.r.Move(len(l.tmplBegin))
+			l.moveTemplate()
+			l.hasTmpl = true
+			continue
 		}
 		l.r.Move(1)
 	}
